@@ -367,6 +367,15 @@ func muts() []mut {
 				t.RepeatedFloat = []float32{2.5}
 			}
 		})},
+		// zero with either sign and NaN with either bit pattern, where BOTH messages have the field populated
+		// (protobuf equality: +0 == -0, every NaN equals every NaN)
+		{"rfloat=[+0]", tm(func(t *T) { t.RepeatedFloat = []float32{0} })},
+		{"rfloat=[-0]", tm(func(t *T) { t.RepeatedFloat = []float32{float32(math.Copysign(0, -1))} })},
+		{"rfloat=[NaN]", tm(func(t *T) { t.RepeatedFloat = []float32{float32(math.NaN())} })},
+		{"rfloat=[NaN']", tm(func(t *T) { t.RepeatedFloat = []float32{math.Float32frombits(0xffc00001)} })},
+		{"mapf[1]=+0", tm(func(t *T) { t.MapInt32Float = map[int32]float32{1: 0} })},
+		{"mapf[1]=-0", tm(func(t *T) { t.MapInt32Float = map[int32]float32{1: float32(math.Copysign(0, -1))} })},
+		{"double=NaN'", tm(func(t *T) { t.DefaultDouble = math.Float64frombits(0xfff8000000000001) })},
 		{"rwk[0].ts+1s", tm(func(t *T) { t.RepeatedWellKnown = []*WK{{DefaultTimestamp: &timestamppb.Timestamp{Seconds: t0 + 1}}} })},
 		{"map+k2", tm(func(t *T) { t.MapStringString = map[string]string{"k": "v", "k2": "v"} })},
 		{"map.k=w", tm(func(t *T) { t.MapStringString = map[string]string{"k": "w"} })},
